@@ -39,6 +39,7 @@ pub fn range(u: &mut Unstructured, lo: usize, hi: usize) -> usize {
     lo + pick(u, hi - lo + 1)
 }
 
+pub mod bigmsg;
 pub mod message;
 pub mod name;
 pub mod rdata;
